@@ -26,6 +26,74 @@ import (
 	ampipe "github.com/pancsta/asyncmachine-go/pkg/states/pipes"
 )
 
+// safeTarget: a local target whose piped calls (made from goroutines the pipe forks) cannot take
+// the process down: a panic is kept as a failure of the scenario.
+type safeTarget struct {
+	*am.Machine
+	mu     sync.Mutex
+	panics []string
+}
+
+func (t *safeTarget) caught(what string) {
+	if r := recover(); r != nil {
+		t.mu.Lock()
+		t.panics = append(t.panics, fmt.Sprintf("the pipe's %s on the target panicked: %v", what, r))
+		t.mu.Unlock()
+	}
+}
+
+func (t *safeTarget) EvAdd(e *am.Event, states am.S, args am.A) am.Result {
+	defer t.caught(fmt.Sprintf("EvAdd(%v)", states))
+	return t.Machine.EvAdd(e, states, args)
+}
+
+func (t *safeTarget) EvRemove1(e *am.Event, state string, args am.A) am.Result {
+	defer t.caught(fmt.Sprintf("EvRemove1(%s)", state))
+	return t.Machine.EvRemove1(e, state, args)
+}
+
+func (t *safeTarget) Set(states am.S, args am.A) am.Result {
+	defer t.caught(fmt.Sprintf("Set(%v)", states))
+	return t.Machine.Set(states, args)
+}
+
+func (t *safeTarget) failures() []string {
+	t.mu.Lock()
+	defer t.mu.Unlock()
+	return append([]string{}, t.panics...)
+}
+
+// safeNet: the same for a network-machine target.
+type safeNet struct {
+	*arpc.NetworkMachine
+	mu     sync.Mutex
+	panics []string
+}
+
+func (t *safeNet) caught(what string) {
+	if r := recover(); r != nil {
+		t.mu.Lock()
+		t.panics = append(t.panics, fmt.Sprintf("the pipe's %s on the network machine panicked: %v", what, r))
+		t.mu.Unlock()
+	}
+}
+
+func (t *safeNet) EvAdd(e *am.Event, states am.S, args am.A) am.Result {
+	defer t.caught(fmt.Sprintf("EvAdd(%v)", states))
+	return t.NetworkMachine.EvAdd(e, states, args)
+}
+
+func (t *safeNet) EvRemove1(e *am.Event, state string, args am.A) am.Result {
+	defer t.caught(fmt.Sprintf("EvRemove1(%s)", state))
+	return t.NetworkMachine.EvRemove1(e, state, args)
+}
+
+func (t *safeNet) failures() []string {
+	t.mu.Lock()
+	defer t.mu.Unlock()
+	return append([]string{}, t.panics...)
+}
+
 type MultiStats struct {
 	Scenarios, Steps, Bindings, NetScenarios, NetOverlaps, BusyScenarios, AnyScenarios int
 }
@@ -62,7 +130,7 @@ func MultiBindScenario(seed int64) (fails []string, line string) {
 		ts[n] = am.State{}
 	}
 	source := am.New(ctx, ss, &am.Opts{Id: fmt.Sprintf("msrc%d", seed%100000)})
-	target := am.New(ctx, ts, &am.Opts{Id: fmt.Sprintf("mtgt%d", seed%100000)})
+	target := &safeTarget{Machine: am.New(ctx, ts, &am.Opts{Id: fmt.Sprintf("mtgt%d", seed%100000)})}
 	defer func() { source.Dispose(); target.Dispose() }()
 	// pairs[source state] = target states that follow it
 	pairs := map[string][]string{}
@@ -150,9 +218,11 @@ func MultiBindScenario(seed int64) (fails []string, line string) {
 		if !ok {
 			fails = append(fails, fmt.Sprintf("a piped state stopped following its source although every step was left to settle: after %s: %s (bindings: %s)",
 				strings.Join(hist, " "), what, strings.Join(desc, " ")))
+			fails = append(fails, target.failures()...)
 			return fails, line
 		}
 	}
+	fails = append(fails, target.failures()...)
 	return fails, line
 }
 
@@ -240,7 +310,7 @@ func NetmachScenario(seed int64) (fails []string, line string) {
 	case <-time.After(5 * time.Second):
 		return nil, line + " (client never Ready: skipped)"
 	}
-	nm := cli.NetMach
+	nm := &safeNet{NetworkMachine: cli.NetMach}
 	source := am.New(ctx, am.Schema{"S": {}, "V": {}}, &am.Opts{Id: fmt.Sprintf("nsrc%d", seed%100000)})
 	defer source.Dispose()
 	if _, err := ampipe.Bind(source, nm, "S", "T", ""); err != nil {
@@ -274,6 +344,7 @@ func NetmachScenario(seed int64) (fails []string, line string) {
 			}
 			fails = append(fails, fmt.Sprintf("the piped state on the remote machine stopped following the source: after %s: %s (every delivery had reached the remote machine, or was being executed there, before the next source operation)",
 				strings.Join(hist, " "), what))
+			fails = append(fails, nm.failures()...)
 		}
 		return ok
 	}
@@ -359,7 +430,7 @@ func BusyTargetScenario(seed int64) (fails []string, line string) {
 	ctx, cancel := context.WithCancel(context.Background())
 	defer cancel()
 	source := am.New(ctx, am.Schema{"S1": {}}, &am.Opts{Id: fmt.Sprintf("bsrc%d", seed%100000)})
-	target := am.New(ctx, am.Schema{"T1": {}, "Z": {Require: am.S{"W"}}, "W": {}, "Busy": {Multi: true}}, &am.Opts{Id: fmt.Sprintf("btgt%d", seed%100000), HandlerTimeout: 5 * time.Second})
+	target := &safeTarget{Machine: am.New(ctx, am.Schema{"T1": {}, "Z": {Require: am.S{"W"}}, "W": {}, "Busy": {Multi: true}}, &am.Opts{Id: fmt.Sprintf("btgt%d", seed%100000), HandlerTimeout: 5 * time.Second})}
 	defer func() { source.Dispose(); target.Dispose() }()
 	var gmu sync.Mutex
 	var gate chan struct{}
@@ -430,10 +501,10 @@ func BusyTargetScenario(seed int64) (fails []string, line string) {
 		return ok
 	}
 	if !round(true) {
-		return fails, line
+		return append(fails, target.failures()...), line
 	}
 	round(false)
-	return fails, line
+	return append(fails, target.failures()...), line
 }
 
 // AnyScripts: the BindAny steps of the scenarios run so far, as lines for the Lean model
@@ -471,7 +542,7 @@ func BindAnyScenario(seed int64) (fails []string, line string) {
 		sch[n] = am.State{}
 	}
 	source := am.New(ctx, sch, &am.Opts{Id: fmt.Sprintf("asrc%d", seed%100000)})
-	target := am.New(ctx, sch, &am.Opts{Id: fmt.Sprintf("atgt%d", seed%100000)})
+	target := &safeTarget{Machine: am.New(ctx, sch, &am.Opts{Id: fmt.Sprintf("atgt%d", seed%100000)})}
 	defer func() { source.Dispose(); target.Dispose() }()
 	if _, err := ampipe.BindAny(source, target); err != nil {
 		return []string{"binding failed: " + err.Error()}, line
